@@ -92,6 +92,23 @@ theorem SWFacts.selfIntervened (facts : SWFacts G w s ev g nev) (x : Var) (hx : 
     rw [hivs] at hi
     exact List.mem_map.2 ⟨i, hi, hin⟩
 
+/-- the single-world facts contain the district facts -/
+theorem SWFacts.toD (facts : SWFacts G w s ev g nev) : DFacts G s g nev where
+  wf := facts.wf
+  nodeOK := facts.nodeOK
+  inj := facts.inj
+  rep := facts.rep
+  biRep := facts.biRep
+  sep := by
+    intro v hv hvn n hn hnn hname
+    have := (facts.selfIntervened v hv hvn).2
+    rw [hname] at this
+    exact facts.notW n hn hnn this
+  nevVals := facts.nevVals
+  nevOK := facts.nevOK
+  keysNodes := facts.keysNodes
+  proj := facts.proj
+
 /-- **the non-self-intervened variables form a local set in the world of the event** — and in every sub-world `L ⊆ w` that
 contains all of `w` as soon as some node still lives in `w` -/
 theorem localSet_world (M : Model) (ν : BaseValues) (hM : Compatible M G) (facts : SWFacts G w s ev g nev)
@@ -209,7 +226,7 @@ def PermDistrict (dordf : List Var → List Var) : Prop := ∀ d, (dordf d).Perm
 theorem PermDistrict.subset {dordf : List Var → List Var} (h : PermDistrict dordf) : SubsetOrder dordf :=
   fun d x hx => (h d).mem_iff.1 hx
 
-theorem mem_toInterventions_unst (facts : SWFacts G w s ev g nev) (pillow : List Var) (hp : ∀ v ∈ pillow, v ∈ g.nodes) (i : Iv) :
+theorem mem_toInterventions_unst (facts : DFacts G s g nev) (pillow : List Var) (hp : ∀ v ∈ pillow, v ∈ g.nodes) (i : Iv) :
     i ∈ ivsCanon (toInterventions pillow) ↔ ∃ v ∈ pillow, i = ⟨v.name, false⟩ := by
   rw [mem_ivsCanon]
   unfold toInterventions
@@ -225,7 +242,7 @@ theorem mem_toInterventions_unst (facts : SWFacts G w s ev g nev) (pillow : List
     rfl
 
 /-- **the variables of a district form a local set in the world of the district's Markov pillow** -/
-theorem localSet_district (M : Model) (ν : BaseValues) (hM : Compatible M G) (facts : SWFacts G w s ev g nev)
+theorem localSet_district (M : Model) (ν : BaseValues) (hM : Compatible M G) (facts : DFacts G s g nev)
     {dordf : List Var → List Var} (hdo : PermDistrict dordf) (D : List Var) (hD : D ∈ (nsiSubgraph g).districts)
     (pillow : List Var) (hp : g.markovPillow (dordf D) = .ok pillow) (τ : Valuation) :
     LocalSet M (worldOf (nuOf ν τ) (ivsCanon (toInterventions pillow))) τ (D.map (·.name)) := by
@@ -256,9 +273,7 @@ theorem localSet_district (M : Model) (ν : BaseValues) (hM : Compatible M G) (f
     by_cases hvnsi : isNotSelfIntervened v = true
     · have : v = n := facts.inj v (hpnode v hv) n hng hvnsi hnsi hin
       exact hvD ((hdo D).mem_iff.2 (this ▸ hnD))
-    · have := (facts.selfIntervened v (hpnode v hv) (by simpa using hvnsi)).2
-      rw [hin] at this
-      exact facts.notW n hng hnsi this
+    · exact facts.sep v (hpnode v hv) (by simpa using hvnsi) n hng hnsi hin
   · intro p hpp
     obtain ⟨x, hxn, hxname⟩ := facts.rep n hng hnsi p (hM.pa_sub n.name p hpp)
     by_cases hxD : x ∈ dordf D
@@ -272,7 +287,7 @@ theorem localSet_district (M : Model) (ν : BaseValues) (hM : Compatible M G) (f
 /-- **c-component factorisation**: the joint local event of all non-self-intervened variables is the product over the
 districts of the counterfactual graph -/
 theorem mass_districts (M : Model) (hM : Compatible M G) (hn : ∀ pmf ∈ M.noise, pmf.sum = 1)
-    (facts : SWFacts G w s ev g nev) (T : List Name) (hT : ∀ V, V ∈ T ↔ ∃ n ∈ (nsiSubgraph g).nodes, n.name = V) (τ : Valuation) :
+    (facts : DFacts G s g nev) (T : List Name) (hT : ∀ V, V ∈ T ↔ ∃ n ∈ (nsiSubgraph g).nodes, n.name = V) (τ : Valuation) :
     mass M.noise (fun u => T.all (localOK M τ u)) =
       ((nsiSubgraph g).districts.map fun D => mass M.noise (fun u => (D.map (·.name)).all (localOK M τ u))).prod := by
   have hwfn := wf_nsiSubgraph g
